@@ -22,6 +22,8 @@ BOUNDS = {
              "(9 classes x simple/derived/empty/unknown x list/tuple/numpy containers of length 0..3, equal and unequal) and 6 unrelated python objects",
     "thorough": "order: EVERY ordered unit pair of every quantity type for Scalar, 3000 pairs for FractionScalar; rest as quick",
 }
+BOUNDS_ALSO = '; also: pool members beyond the float range (10^400 as int and as Fraction numerator), Scalars differing only by caption or by the order of operations behind one unit text, unit systems filled in another order; physical amounts of Scalars read from the published coefficients of both rows where available'
+BOUNDS = {k_: v_ + BOUNDS_ALSO for k_, v_ in BOUNDS.items()}
 ASSUMPTIONS = ["A-FP; physical amount phys(a) = tobase_u(x) from the real closures (strictly increasing by C01)", "A-HASH: CPython float hash is a function of the value "
                "(proxy hash = congruence token under the path condition)", "FP mode for same-unit comparisons: z3 Float64", "a<=b or b<=a is claimed for finite values only"]
 CHUNK = 40
